@@ -65,24 +65,34 @@ structure Keep (s t : St) : Prop where
   needReset : t.dp.needReset = s.dp.needReset
   grow : s.hist.size ≤ t.hist.size
   histpos : t.hist.size + s.dp.pos = s.hist.size + t.dp.pos
+  inPosMono : s.inPos ≤ t.inPos
 
-theorem Keep.refl (s : St) : Keep s s := ⟨rfl, rfl, rfl, rfl, rfl, rfl, rfl, rfl, rfl, rfl, Nat.le_refl _, rfl⟩
+theorem Keep.refl (s : St) : Keep s s := ⟨rfl, rfl, rfl, rfl, rfl, rfl, rfl, rfl, rfl, rfl, Nat.le_refl _, rfl, Nat.le_refl _⟩
 
 theorem Keep.trans {a b c : St} (h1 : Keep a b) (h2 : Keep b c) : Keep a c :=
   ⟨h2.inp.trans h1.inp, h2.initLeft.trans h1.initLeft, h2.uncomp.trans h1.uncomp, h2.allowEopm.trans h1.allowEopm,
    h2.eopmValid.trans h1.eopmValid, h2.outBase.trans h1.outBase, h2.l2.trans h1.l2, h2.limit.trans h1.limit,
    h2.size.trans h1.size, h2.needReset.trans h1.needReset, Nat.le_trans h1.grow h2.grow,
-   by have := h1.histpos; have := h2.histpos; omega⟩
+   (by have := h1.histpos; have := h2.histpos; omega), Nat.le_trans h1.inPosMono h2.inPosMono⟩
 
 theorem Same.keep {s t : St} (h : Same s t) : Keep s t :=
-  ⟨h.inp, h.initLeft, h.uncomp, h.allowEopm, h.eopmValid, h.outBase, h.l2, h.limit, h.size, h.needReset, h.grow, h.histpos⟩
+  ⟨h.inp, h.initLeft, h.uncomp, h.allowEopm, h.eopmValid, h.outBase, h.l2, h.limit, h.size, h.needReset, h.grow, h.histpos,
+   Nat.le_of_eq h.inPos.symm⟩
 
 /-- a decode step: only range-coder fields and state/reps change -/
-theorem keep_setSt_rcSet (s : St) (ps : Probs) (rc : Rc) (n : Nat) (st : SymSt) : Keep s (setSt (rcSet s ps rc n) st) :=
-  ⟨rfl, rfl, rfl, rfl, rfl, rfl, rfl, rfl, rfl, rfl, Nat.le_refl _, rfl⟩
+theorem keep_setSt_rcSet (s : St) (ps : Probs) (rc : Rc) (n : Nat) (st : SymSt) (hle : s.inPos ≤ s.inp.size - n) :
+    Keep s (setSt (rcSet s ps rc n) st) :=
+  ⟨rfl, rfl, rfl, rfl, rfl, rfl, rfl, rfl, rfl, rfl, Nat.le_refl _, rfl, hle⟩
 
-theorem keep_rcSet (s : St) (ps : Probs) (rc : Rc) (n : Nat) : Keep s (rcSet s ps rc n) :=
-  ⟨rfl, rfl, rfl, rfl, rfl, rfl, rfl, rfl, rfl, rfl, Nat.le_refl _, rfl⟩
+theorem keep_rcSet (s : St) (ps : Probs) (rc : Rc) (n : Nat) (hle : s.inPos ≤ s.inp.size - n) : Keep s (rcSet s ps rc n) :=
+  ⟨rfl, rfl, rfl, rfl, rfl, rfl, rfl, rfl, rfl, rfl, Nat.le_refl _, rfl, hle⟩
+
+/-- the cursor position after consuming a prefix of the unread input -/
+theorem view_le {s : St} {ps : Probs} {rc : Rc} {rest pre rest' : List UInt8} (hv : View s ps rc rest)
+    (h : rest = pre ++ rest') : s.inPos ≤ s.inp.size - rest'.length := by
+  have := hv.pos
+  rw [h, List.length_append] at this
+  omega
 
 theorem Same.view {s t : St} (h : Same s t) {ps : Probs} {rc : Rc} {rest : List UInt8} (hv : View s ps rc rest) :
     View t ps rc rest := hv.congr h.probs h.range h.code h.inPos h.inp
